@@ -254,6 +254,11 @@ def corpus_specs() -> list[dict]:
     out.append(hand_spec(["<start> ::= <Fz:Ex:q> <Ex:Fz:a> <Ex:Fy:b>"],
                          [T("q", "Fz", "Ex", ["q"]), T("a", "Ex", "Fz", ["x", "y"]), T("b", "Ex", "Fy", ["u", "v"])],
                          ["Fz", "Fy"], ["Ex"]))
+    # one external sender, two fuzzer-controlled recipients, multi-character contents one a prefix of another: with
+    # overlapping peers the fragments of Ex->Fz and Ex->Fy interleave in the buffer
+    out.append(hand_spec(["<start> ::= <Fz:Ex:q> <Ex:Fz:a> <Ex:Fy:b> <Ex:Fz:c>? <Fy:Ex:r>"],
+                         [T("q", "Fz", "Ex", ["q"]), T("a", "Ex", "Fz", ["xy", "xyz"]), T("b", "Ex", "Fy", ["uv", "u"]),
+                          T("c", "Ex", "Fz", ["w"]), T("r", "Fy", "Ex", ["r"])], ["Fz", "Fy"], ["Ex"]))
     # two external parties answering in either order
     out.append(hand_spec(["<start> ::= <Fz:Ex:q> (<Ex:Fz:a> <Th:Fz:b> | <Th:Fz:b> <Ex:Fz:a>) <Fz:Th:r>"],
                          [T("q", "Fz", "Ex", ["q"]), T("a", "Ex", "Fz", ["a", "ab"]), T("b", "Th", "Fz", ["b", "ba"]),
@@ -283,6 +288,12 @@ def scenarios_for(info: dict, rng, tier: str) -> list[dict]:
     # chatty peers: whoever may speak does so at every delivery point, so data of several senders / several
     # messages sits in the buffer while an extraction reads
     out.append({"mode": "eager", "fault": None, "seed": rng.randrange(1 << 30), "p_reply_in_send": 1.0, "p_unsolicited": 1.0})
+    # overlapping peers: the next message is already on its way while chunks of the previous one are pending; the
+    # chunks of different (sender, recipient) channels interleave as the tape decides (each channel stays FIFO)
+    several = len(info["fuzzer"]) > 1 or len(info["external"]) > 1
+    for _ in range((2 if several else 1) + (1 if tier == "thorough" else 0)):
+        out.append({"mode": "eager", "fault": None, "seed": rng.randrange(1 << 30), "overlap": True,
+                    "p_reply_in_send": rng.choice([0.5, 1.0]), "p_unsolicited": rng.choice([0.3, 1.0])})
     return out
 
 
@@ -395,7 +406,9 @@ def judge(info: dict, table: dict, complete: set, obs: dict, model: Optional[dic
     if model is not None and not divergent and not resend and not (kind or "").startswith("other:"):
         mh = [[m[0], m[1], m[2], m[3]] for m in model["history"]]
         diffs = []
-        if model["stuck"] is not None:
+        if model.get("missing_forecast"):
+            diffs.append("the model's history left the prefixes the verified forecaster enumerated (no forecast for it)")
+        if model["stuck"] is not None and model["stuck"] < len(obs["trace"]):
             diffs.append(f"model does not enable trace event #{model['stuck']} {obs['trace'][model['stuck']]}")
         if mh != hist:
             diffs.append(f"history model {mh} real {hist}")
@@ -499,6 +512,14 @@ def run_spec(job: dict) -> dict:
                 count("runs-with-several-channels")
             if len({d[1] for d in obs["delivered"]}) > 1 and len({d[0] for d in obs["delivered"]}) == 1:
                 count("runs-one-sender-two-recipients")
+            for p in {d[0] for d in obs["delivered"]}:
+                rs = [d[1] for d in obs["delivered"] if d[0] == p]
+                rs = [r for i, r in enumerate(rs) if i == 0 or rs[i - 1] != r]
+                if len(rs) > len(set(rs)):
+                    count("runs-one-sender-channels-interleaved(A-B-A)")
+                    break
+            if sc.get("overlap"):
+                count("runs-overlapping-peers")
             if obs.get("c19_divergence"):
                 count("left-to-C19:forecast-differs-from-verified")
                 if len(res.setdefault("divergences", [])) < 3:
@@ -556,6 +577,14 @@ def make_jobs(run: Run, tier: str) -> list[dict]:
     return jobs
 
 
+def fresh_pool(workers: int) -> ProcessPoolExecutor:
+    """one fresh interpreter per task, string hashing fixed (fandango iterates over sets of names)"""
+    import multiprocessing
+    os.environ["PYTHONHASHSEED"] = "0"
+    return ProcessPoolExecutor(max_workers=workers, mp_context=multiprocessing.get_context("spawn"),
+                               max_tasks_per_child=1)
+
+
 def build_drivers() -> None:
     from harness.common import LEAN, _Lock, _run
     with _Lock():
@@ -582,7 +611,9 @@ def main(tier: str) -> int:
     jobs = make_jobs(run, tier)
     workers = int(os.environ.get("VERIF_WORKERS", "6" if tier == "quick" else "8"))
     results = []
-    with ProcessPoolExecutor(max_workers=workers) as ex:
+    # one fresh interpreter per spec: what a run does must not depend on which specs the worker process ran before
+    # (fandango keeps module-level state), or a reported schedule would not replay
+    with fresh_pool(workers) as ex:
         futs = {ex.submit(run_spec, j): j for j in jobs}
         for fu in as_completed(futs):
             results.append((futs[fu], fu.result()))
@@ -619,32 +650,42 @@ def main(tier: str) -> int:
         trusted_base=TRUSTED)
 
 
-def replay(path: str) -> int:
+def replay_case(rp: dict) -> dict:
+    """one recorded case on the current tree (runs in a fresh interpreter, as every case of `main` does)"""
     use_repo()
-    rp = json.loads(open(path).read())
-    if rp.get("no_failing_input_found"):
-        print(f"[C20] replay names a broken obligation / correspondence case: {rp.get('what')}")
-        lean = lean_check("Props.C20", ["drv_io", "drv_proto"])
-        print("obligations", len(lean.discharged), "/", len(lean.obligations))
-        return 0 if lean.ok else 1
-    job = {"idx": 0, "spec": rp["spec"], "info": rp["info"], "seed": rp.get("seed", 0), "scenarios": [rp["scenario"]],
-           "cap_per_scenario": 0, "sample_extra": 0}
     from harness.impl.grammar_io import grammar_to_json, parse_spec
     from harness.impl import io_world
     import warnings
     io_world.install()
     with warnings.catch_warnings():
         warnings.simplefilter("ignore")
-        grammar, _ = parse_spec(job["spec"])
+        grammar, _ = parse_spec(rp["spec"])
     gj, _ = grammar_to_json(grammar)
     ans = driver_ask("drv_proto", [{"op": "enum", "grammar": gj, "start": "<start>", "cap": 20, "depth": 12, "limit": 4000}])[0]
     cases = ans["cases"]
     table = {key_of(c["h"]): [tuple(m) for m in c["nexts"]] for c in cases}
     complete = {key_of(c["h"]) for c in cases if c["complete"]}
-    obs = io_world.run_case(job["spec"], job["info"], rp["scenario"], rp["tape"], table)
-    model = driver_ask("drv_io", [model_request(job["info"], cases, obs)])[0]
-    bad = judge(job["info"], table, complete, obs, model, None)
-    print(job["spec"].split("import c20world")[0])
+    obs = io_world.run_case(rp["spec"], rp["info"], rp["scenario"], rp["tape"], table)
+    model = driver_ask("drv_io", [model_request(rp["info"], cases, obs)])[0]
+    bad = judge(rp["info"], table, complete, obs, model, None)
+    return {"obs": obs, "model": model, "bad": bad}
+
+
+def replay(path: str) -> int:
+    use_repo()
+    rp = json.loads(open(path).read())
+    gen = translate_iorun.regenerate()
+    if rp.get("no_failing_input_found"):
+        print(f"[C20] replay names a broken obligation / correspondence case: {rp.get('what')}")
+        lean = lean_check("Props.C20", ["drv_io", "drv_proto"])
+        print("generated variant", gen["flags"], "refusals", gen["refusals"])
+        print("obligations", len(lean.discharged), "/", len(lean.obligations))
+        return 0 if lean.ok and not gen["refusals"] else 1
+    build_drivers()
+    with fresh_pool(1) as ex:
+        r = ex.submit(replay_case, rp).result()
+    obs, model, bad = r["obs"], r["model"], r["bad"]
+    print(rp["spec"].split("import c20world")[0])
     print("scenario", rp["scenario"], "tape", rp["tape"])
     for k in ("status", "error", "history", "buffer", "sends", "delivered", "trace", "fresh_constraints"):
         print(f"  {k}: {obs.get(k)}")
@@ -652,4 +693,5 @@ def replay(path: str) -> int:
     hit = [b for b in bad if b[0] == rp.get("signature")]
     for sig, what in bad:
         print(f"  {'REPRODUCED' if sig == rp.get('signature') else 'also'}: {sig}: {what}")
+    print("replay:", "property violated" if hit else "no violation on the current tree")
     return 1 if hit else 0
